@@ -176,6 +176,12 @@ CHECKS = {
         text='Every input combination inside the bound is called on the real elfi.tools.vectorize result with earlier calls as the history of later ones on one shared callable; decided per call: the arguments the operation saw, pass-through of constants and kwargs, the meta row index, batch length from the inputs or from batch_size, rejection of mismatching lengths, stacking by dtype (incl. dtype=False). Every template of the token grammar runs through external_operation; parsed type and values, KeyError on each missing key, seed determinism under equal generator state and pairwise different seeds per batch row are decided, directly, under vectorize and in model runs (batch sizes 1-3, thorough 1-5).',
         note='Trusted: numpy RandomState stream for the twin model; /bin/sh echo and printf. Reading: row input = ndarray with ndim >= 1 not in the mask. Bounded to arity <= 4, batch size <= 5, templates of <= 7 tokens; the exact seed derivation is reported, not judged; row call order unconstrained.',
         design_ref='4 C18'),
+    'C16': dict(
+        level='exploration',
+        technique='exhaustive product enumeration of parameter-name orders x outputs-dict orders x sizes x weight vectors x grid value matrices on real Sample / SmcSample / BolfiSample / BslSample objects, plus every save/query history up to depth 3-4, decided by exact-rational weighted-mean and quantile references, stdlib-parser read-back and an exact-rational direct-sum ESS / split R-hat reference with affine and permutation metamorphic relations',
+        text='Every result object inside the bounds is built on the real classes and must expose its columns in parameter-name order, its means must equal the exact weighted averages and its intervals must be admissible weighted quantiles; BOLFI samples must be the chain-by-chain concatenation of chain[warmup:] (distinct numbers per cell, four memory layouts). Every sequence of pkl/csv/json saves and queries must leave all 17 accessors unchanged and every file must read back to the same samples, including a float64/int64 text round-trip alphabet. ESS and split R-hat must equal their formulas and stay invariant under four binary-exact affine maps and all chain permutations. Real seeded Rejection and SMC results go through the same oracle.',
+        note='Trusted: fractions, stdlib json/csv/pickle, numpy array construction; rtol 1e-9 only where float and exact formulas are compared; quantile alpha widened by 1e-9 on boundaries; ESS cases within 1e-9 of the truncation sign change and zero-variance chains counted, not judged. Univariate float64/int64 columns, n <= 5, <= 4 parameters, <= 4 chains, length <= 8; idata and plotting not exercised; file key/column order not demanded.',
+        design_ref='4 C16'),
     'C15': dict(
         level='model_checking',
         technique='explicit-state BFS to closure over the real get_sub_seed cache states (all index requests in every '
